@@ -82,7 +82,9 @@ fn private_is_dirty(
         );
     }
 
-    if f.failed_runid.is_some() {
+    // 0 is not a run id: it is what the "converted target -> source" case
+    // below stores, and it does not mean that a build failed.
+    if f.failed_runid.map_or(false, |failed_runid| failed_runid != 0) {
         log_debug!("{}-- DIRTY (failed last time)\n", depth);
         return Ok(Dirtiness::Dirty);
     }
